@@ -1,6 +1,9 @@
 import HcipyVerif.Lemmas.ApertureMain
 import HcipyVerif.Lemmas.AperturePolygon
 import HcipyVerif.Lemmas.ApertureKeck
+import HcipyVerif.Lemmas.AperturePolar
+import HcipyVerif.Lemmas.AperturePolarInexact
+import HcipyVerif.Lemmas.ApertureStat
 
 /-!
 # C12 — Apertures depend only on the physical points, not on the grid representation
@@ -16,13 +19,26 @@ All theorems are about `HcipyVerif.Aperture` (Model/Aperture.lean), the model of
   separated): broadcast of `x[newaxis,:]`, `y[:,newaxis]`, bounding slices, masked assignment into
   the 2-D view, `ravel()`;
 * `evalPts s pts` is the code path on a **non-separated** grid (unstructured Cartesian; every polar
-  grid after `as_('cartesian')`): element-wise on the coordinate arrays, `x[m]`, `f[m] = …`.
+  grid after `as_('cartesian')`): element-wise on the coordinate arrays, `x[m]`, `f[m] = …`;
+* `evalPolar s qs` is the code path on a **polar** grid whose points are `(r, cos θ, sin θ)`: the
+  radius shortcut of the centre-less circle (`.disk`), `PolarGrid.rotate` for rotated apertures,
+  `as_('cartesian')` (→ `evalPts`) for every other maker.
+
+All four are executed by the driver (`C12 eval sep|pts|polar`, `C12 regsub`, `C12 keck`, `C12 vlt`,
+`C12 super`, `C12 superstat`, `C12 superlist`) and compared with the running code — values, and for the regular polygon also the
+bounding slices / the mask and the sub-array that `func(grid, return_with_mask=True)` returns.
 
 Every statement holds for **all** axis lists (any length, unsorted, repeated values) and all
 rational parameters.  Hypotheses (each has a satisfiability `example` at the end):
 * `WF s`     — every regular polygon in `s` has a non-negative circum-radius;
 * `Binary s` — `s` is built from the binary makers (no transmissions other than 1, differences
-               only of nested shapes).
+               only of nested shapes);
+* `PolarWF s` — centre-less circles evaluated on the polar grid itself have radius ≥ 0 and the
+               rotations above them satisfy `c² + s² = 1`;
+* `PolarPt q` — `0 ≤ r` and `cos² + sin² = 1`.
+
+The refutations of code that no longer exists in /repo (D6 `circlePolarOld`, D7 `regpolySlowOld`)
+are kept as documentation in Lemmas/ApertureList.lean (section D); they are not property theorems.
 -/
 set_option linter.unusedSimpArgs false
 set_option linter.unusedVariables false
@@ -54,6 +70,74 @@ theorem value_depends_on_point_only (s : Shape) (pts pts' : List Pt) (k k' : Nat
     (hk : k < pts.length) (hk' : k' < pts'.length) (h : pts.getD k (0, 0) = pts'.getD k' (0, 0)) :
     (evalPts s pts)[k]? = (evalPts s pts')[k']? := by
   rw [evalPts_getElem? s pts k hk, evalPts_getElem? s pts' k' hk', h]
+
+/-! ### polar grids -/
+
+/-- **The polar code path computes the point semantics** at `(r cos θ, r sin θ)`, for every shape
+tree: the radius shortcut of the centre-less circle, rotation by adding to θ, conversion for the
+rest. -/
+theorem polar_path_eq_inside (s : Shape) (qs : List PPt) (h : PolarWF s) (hq : ∀ q ∈ qs, PolarPt q) :
+    evalPolar s qs = (qs.map toCart).map (val s) :=
+  evalPolar_eq_val s qs h hq
+
+/-- **Representation independence, polar ↔ Cartesian**: a polar grid and the unstructured Cartesian
+grid holding the same physical points get the same field. -/
+theorem polar_representation_independent (s : Shape) (qs : List PPt) (h : PolarWF s)
+    (hq : ∀ q ∈ qs, PolarPt q) : evalPolar s qs = evalPts s (qs.map toCart) := by
+  rw [evalPolar_eq_val s qs h hq, evalPts_eq_val]
+
+/-- the shortcut `grid.as_('polar').r <= diameter / 2` of `make_circular_aperture` without a centre
+is the Cartesian test, for a non-negative diameter -/
+theorem polar_circle_shortcut {R : Rat} (hR : 0 ≤ R) (qs : List PPt) (hq : ∀ q ∈ qs, PolarPt q) :
+    evalPolar (.disk R) qs = qs.map (fun q => b2r (decide (q.1 ≤ R))) ∧
+    evalPolar (.disk R) qs = (qs.map toCart).map (val (.disk R)) :=
+  ⟨rfl, evalPolar_eq_val (.disk R) qs hR hq⟩
+
+/-- **… and for a negative diameter it is not**: at the origin the shortcut says "outside", the
+Cartesian test (which squares the radius) "inside".  The real code does the same
+(`make_circular_aperture(-1.0)`: 12 pixels on a Cartesian 8×8 grid, none on the same grid as polar —
+replayed by the harness, `negative-diameter` in c12.py); a negative diameter is outside the domain
+of the property ("sizes"), so this is documented, not repaired. -/
+theorem polar_circle_negative_diameter_counterexample :
+    ∃ R qs, (∀ q ∈ qs, PolarPt q) ∧ evalPolar (.disk R) qs ≠ (qs.map toCart).map (val (.disk R)) := by
+  refine ⟨-1, [(0, 1, 0)], ?_, ?_⟩
+  · intro q hq
+    simp only [List.mem_singleton] at hq
+    subst hq
+    exact evalPolar_negative_radius.1
+  · rw [evalPolar_negative_radius.2.1, evalPolar_negative_radius.2.2]
+    decide
+
+/-! #### … on the direction cosines the code really has (floats: not exactly a unit vector)
+
+`PolarPt` above asks for `cos² + sin² = 1` exactly; that is false for almost every float pair
+`(cos θ, sin θ)` the driver is sent.  `diskAgree s q` (Model; computed by the driver for every point of
+every polar request) is the decidable condition that carries the statement instead. -/
+
+/-- **The polar code path computes the point semantics wherever the radius shortcuts agree with the
+Cartesian test** — no hypothesis on the direction cosines, the rotations or the radii. -/
+theorem polar_path_eq_inside_float (s : Shape) (qs : List PPt) (h : ∀ q ∈ qs, diskAgree s q = true) :
+    evalPolar s qs = (qs.map toCart).map (val s) :=
+  evalPolar_eq_val_of_agree s qs h
+
+/-- **… and they agree except within one rounding error of the rim**: if `cos² + sin²` is within `ε`
+of 1 then `r ≤ R` and `(r cos)² + (r sin)² ≤ R²` agree whenever `ε·r² < |r² − R²|`. -/
+theorem polar_float_rim {R ε : Rat} (hR : 0 ≤ R) {q : PPt} (hr : 0 ≤ q.1)
+    (hn : |q.2.1 * q.2.1 + q.2.2 * q.2.2 - 1| ≤ ε) (hfar : ε * sq q.1 < |sq q.1 - sq R|) :
+    diskAgree (.disk R) q = true :=
+  diskAgree_of_far hR hr hn hfar
+
+/-- `PolarGrid.rotate` on float cosines multiplies the squared norm of the direction by the squared
+norm of the rotation (so `ε` grows to at most `2ε + ε²` per rotation) -/
+theorem polar_rotate_norm (c s : Rat) (q : PPt) :
+    (rotDir c s q).2.1 * (rotDir c s q).2.1 + (rotDir c s q).2.2 * (rotDir c s q).2.2
+      = (c * c + s * s) * (q.2.1 * q.2.1 + q.2.2 * q.2.2) :=
+  rotDir_norm c s q
+
+/-- the exact case: a unit direction and a radius ≥ 0 always agree -/
+theorem polar_exact_agrees {R : Rat} (hR : 0 ≤ R) {q : PPt} (hq : PolarPt q) :
+    diskAgree (.disk R) q = true :=
+  diskAgree_of_polarPt hR hq
 
 /-- **Index theorem** (`fast_eq_slow` for every maker): at flat index `iy·Nx + ix` the separated
 path holds exactly the value at the point `(x[ix], y[iy])`. -/
@@ -227,25 +311,142 @@ theorem mean_in_unit_interval (n : Nat) (fs : List (List Rat)) (hne : fs ≠ [])
   meanFields_mem_unit n fs hne hlen hu
 
 /-- **supersampled binary apertures take values in [0,1]** — for every oversampling `nx, ny`
-and every separated grid on which `evaluate_supersampled` is defined (each axis ≥ 2 points) -/
+and every separated grid on which `evaluate_supersampled` is defined -/
 theorem supersampled_in_unit_interval {s : Shape} (hb : Binary s) (hw : WF s) {nx ny : Nat}
-    {xs ys f : List Rat} (h : supersampled s nx ny xs ys = some f) : ∀ v ∈ f, 0 ≤ v ∧ v ≤ 1 :=
+    {xs ys f : List Rat} (h : supersampled s nx ny xs ys = .ok f) : ∀ v ∈ f, 0 ≤ v ∧ v ≤ 1 :=
   supersampled_mem_unit hb hw h
 
-/-! ## the field belongs to the grid asked for -/
+/-- **where it is defined**: each axis has ≥ 2 points and both oversampling factors are ≥ 1 (the
+model has no totalised `x / 0`: a factor 0 is an error, as in the code) -/
+theorem supersampled_defined_iff (s : Shape) (nx ny : Nat) (xs ys : List Rat) :
+    (∃ f, supersampled s nx ny xs ys = .ok f) ↔ (2 ≤ xs.length ∧ 2 ≤ ys.length ∧ 1 ≤ nx ∧ 1 ≤ ny) :=
+  supersampled_isOk_iff s nx ny xs ys
 
-/-- one sample per grid point, in the grid's own order (the model's counterpart of
-`Field(…, grid)`; object identity itself is checked on the real code by the harness) -/
-theorem attached_grid_separated (s : Shape) (xs ys : List Rat) (h : WF s) :
+/-- which exception otherwise: IndexError for a one-point axis, else ZeroDivisionError for a
+factor 0 (the order in which the code computes spacings and the dither grid) -/
+theorem supersampled_error_kinds (s : Shape) (nx ny : Nat) (xs ys : List Rat) :
+    (supersampled s nx ny xs ys = .error .index ↔ (xs.length < 2 ∨ ys.length < 2)) ∧
+    (supersampled s nx ny xs ys = .error .zeroDiv ↔
+      (2 ≤ xs.length ∧ 2 ≤ ys.length ∧ (nx = 0 ∨ ny = 0))) :=
+  supersampled_error_iff s nx ny xs ys
+
+/-! ### the other statistics: 'sum', 'min', 'max' (`supersampledStat`, driver op `C12 superstat`) -/
+
+/-- statistic 'mean' of the general form is the `supersampled` of the theorems above -/
+theorem supersampled_statistic_mean (s : Shape) (nx ny : Nat) (xs ys : List Rat) :
+    supersampledStat .mean s nx ny xs ys = supersampled s nx ny xs ys :=
+  supersampledStat_mean s nx ny xs ys
+
+/-- which exception a statistic raises: IndexError for a one-point axis whatever the statistic;
+for an oversampling factor 0 ZeroDivisionError with 'mean' (`0 / len(dithers)`), AttributeError with
+'sum' / 'min' / 'max' (`field.grid = grid` on the initial `0` / `None`) — found by the `superstat`
+tie: the first model said ZeroDivisionError for all four -/
+theorem supersampled_statistic_error_kinds (st : Stat) (s : Shape) (nx ny : Nat) (xs ys : List Rat) :
+    (supersampledStat st s nx ny xs ys = .error .index ↔ (xs.length < 2 ∨ ys.length < 2)) ∧
+    (supersampledStat st s nx ny xs ys = .error .zeroDiv ↔
+      (st = .mean ∧ 2 ≤ xs.length ∧ 2 ≤ ys.length ∧ (nx = 0 ∨ ny = 0))) ∧
+    (supersampledStat st s nx ny xs ys = .error .attribute ↔
+      (st ≠ .mean ∧ 2 ≤ xs.length ∧ 2 ≤ ys.length ∧ (nx = 0 ∨ ny = 0))) :=
+  ⟨supersampledStat_index_iff st s nx ny xs ys, supersampledStat_zero_iff st s nx ny xs ys⟩
+
+/-- … and every statistic is defined exactly where 'mean' is -/
+theorem supersampled_statistic_defined_iff (st : Stat) (s : Shape) (nx ny : Nat) (xs ys : List Rat) :
+    (∃ f, supersampledStat st s nx ny xs ys = .ok f) ↔ (2 ≤ xs.length ∧ 2 ≤ ys.length ∧ 1 ≤ nx ∧ 1 ≤ ny) :=
+  supersampledStat_isOk_iff st s nx ny xs ys
+
+/-- **'min' and 'max' only select**: every value they return is the aperture's value at some
+physical point — whatever the aperture (transmissions included) -/
+theorem supersampled_min_max_selects {st : Stat} (hst : st = .min ∨ st = .max) {s : Shape} (hw : WF s)
+    {nx ny : Nat} {xs ys f : List Rat} (h : supersampledStat st s nx ny xs ys = .ok f) :
+    ∀ v ∈ f, ∃ p, v = val s p :=
+  supersampledStat_minmax_val hst hw h
+
+/-- hence the 'min' / 'max' of a binary aperture is again 0/1-valued (in particular in [0,1]) -/
+theorem supersampled_min_max_binary {st : Stat} (hst : st = .min ∨ st = .max) {s : Shape}
+    (hb : Binary s) (hw : WF s) {nx ny : Nat} {xs ys f : List Rat}
+    (h : supersampledStat st s nx ny xs ys = .ok f) : ∀ v ∈ f, v = 0 ∨ v = 1 := by
+  intro v hv
+  obtain ⟨p, rfl⟩ := supersampledStat_minmax_val hst hw h v hv
+  exact binary_val hb p
+
+/-- **min ≤ mean ≤ max at every pixel** — any aperture, any oversampling -/
+theorem supersampled_min_le_mean_le_max {s : Shape} (hw : WF s) {nx ny : Nat} {xs ys fmin fmean fmax : List Rat}
+    (hmin : supersampledStat .min s nx ny xs ys = .ok fmin) (hmean : supersampled s nx ny xs ys = .ok fmean)
+    (hmax : supersampledStat .max s nx ny xs ys = .ok fmax) (k : Nat) (hk : k < xs.length * ys.length) :
+    fmin.getD k 0 ≤ fmean.getD k 0 ∧ fmean.getD k 0 ≤ fmax.getD k 0 :=
+  supersampledStat_order hw hmin hmean hmax k hk
+
+/-- 'mean' is 'sum' divided by the number of dithered grids `ny·nx` -/
+theorem supersampled_sum_mean {s : Shape} {nx ny : Nat} {xs ys f : List Rat}
+    (h : supersampledStat .sum s nx ny xs ys = .ok f) :
+    supersampled s nx ny xs ys = .ok (f.map fun v => v / ((ny * nx : Nat) : Rat)) :=
+  supersampledStat_sum_mean h
+
+/-- the 'sum' of a binary aperture counts sub-samples: between 0 and `ny·nx` (so 'sum' does **not**
+stay in [0,1]; the clause is about 'mean', 'min', 'max') -/
+theorem supersampled_sum_bounds {s : Shape} (hb : Binary s) (hw : WF s) {nx ny : Nat}
+    {xs ys f : List Rat} (h : supersampledStat .sum s nx ny xs ys = .ok f) :
+    ∀ v ∈ f, 0 ≤ v ∧ v ≤ ((ny * nx : Nat) : Rat) :=
+  supersampledStat_sum_bounds hb hw h
+
+/-! ### a list of generators (→ ModeBasis; `supersampledList`, driver op `C12 superlist`) -/
+
+/-- **the list form holds, in order, exactly the fields of its generators**: it succeeds iff every
+generator does (any statistic) -/
+theorem supersampled_list_ok_iff (st : Stat) (nx ny : Nat) (xs ys : List Rat) {ss : List Shape}
+    (hne : ss ≠ []) (fs : List (List Rat)) :
+    supersampledList st nx ny xs ys ss = .ok fs ↔
+      List.Forall₂ (fun s f => supersampledStat st s nx ny xs ys = .ok f) ss fs :=
+  supersampledList_ok_iff st nx ny xs ys hne fs
+
+/-- an empty list is rejected (ValueError from `ModeBasis`) -/
+theorem supersampled_list_empty (st : Stat) (nx ny : Nat) (xs ys : List Rat) :
+    supersampledList st nx ny xs ys [] = .error .value := rfl
+
+/-- a non-empty list fails exactly when, and as, its first generator does -/
+theorem supersampled_list_error_iff (st : Stat) (nx ny : Nat) (xs ys : List Rat) (s : Shape)
+    (rest : List Shape) (e : SuperErr) :
+    supersampledList st nx ny xs ys (s :: rest) = .error e ↔ supersampledStat st s nx ny xs ys = .error e :=
+  supersampledListAux_error_iff st nx ny xs ys s rest e
+
+/-- every mode of a supersampled list of binary apertures has values in [0,1] -/
+theorem supersampled_list_in_unit_interval {nx ny : Nat} {xs ys : List Rat} {s : Shape} {rest : List Shape}
+    (hs : ∀ t ∈ s :: rest, Binary t ∧ WF t) {fs : List (List Rat)}
+    (h : supersampledList .mean nx ny xs ys (s :: rest) = .ok fs) : ∀ f ∈ fs, ∀ v ∈ f, 0 ≤ v ∧ v ≤ 1 :=
+  supersampledListAux_mem_unit hs h
+
+/-- one mode per generator -/
+theorem supersampled_list_length {st : Stat} {nx ny : Nat} {xs ys : List Rat} {s : Shape} {rest : List Shape}
+    {fs : List (List Rat)} (h : supersampledList st nx ny xs ys (s :: rest) = .ok fs) :
+    fs.length = (s :: rest).length :=
+  supersampledListAux_length h
+
+/-! ## one sample per grid point
+
+The clause "the returned field is attached to the grid it was asked for" is about object identity
+(`field.grid is grid`) and is **oracle-only**: the harness checks it on the real code for every
+maker, every representation and the supersampled form.  What the model can say is only that each
+code path returns one sample per grid point, in the grid's own order: -/
+
+theorem field_length_separated (s : Shape) (xs ys : List Rat) (h : WF s) :
     (evalSep s xs ys).length = (sepPoints xs ys).length := by
   rw [evalSep_length s xs ys h, sepPoints_length, Nat.mul_comm]
 
-theorem attached_grid_unstructured (s : Shape) (pts : List Pt) : (evalPts s pts).length = pts.length :=
+theorem field_length_unstructured (s : Shape) (pts : List Pt) : (evalPts s pts).length = pts.length :=
   evalPts_length s pts
 
-theorem attached_grid_supersampled {s : Shape} (hw : WF s) {nx ny : Nat} {xs ys f : List Rat}
-    (h : supersampled s nx ny xs ys = some f) : f.length = (sepPoints xs ys).length := by
+theorem field_length_polar (s : Shape) (qs : List PPt) (h : PolarWF s) (hq : ∀ q ∈ qs, PolarPt q) :
+    (evalPolar s qs).length = qs.length := by
+  rw [evalPolar_eq_val s qs h hq]; simp
+
+theorem field_length_supersampled {s : Shape} (hw : WF s) {nx ny : Nat} {xs ys f : List Rat}
+    (h : supersampled s nx ny xs ys = .ok f) : f.length = (sepPoints xs ys).length := by
   rw [supersampled_length hw h, sepPoints_length, Nat.mul_comm]
+
+theorem field_length_supersampled_statistic {st : Stat} {s : Shape} (hw : WF s) {nx ny : Nat}
+    {xs ys f : List Rat} (h : supersampledStat st s nx ny xs ys = .ok f) :
+    f.length = (sepPoints xs ys).length := by
+  rw [supersampledStat_length hw h, sepPoints_length, Nat.mul_comm]
 
 /-! ## the regular polygon's tests versus their definition -/
 
@@ -268,11 +469,6 @@ theorem halfplane_product (even : Bool) (a : Rat) (dirs : List (Rat × Rat)) (x 
 /-- the two spellings of the bounding box, `x² ≤ R²` (fast path) and `|x| ≤ R` (rectangular mask) -/
 theorem box_spellings_agree {x r : Rat} (h : 0 ≤ r) : sq x ≤ sq r ↔ |x| ≤ r := by
   rw [sq_le_sq_iff_rabs h, rabs_eq_abs]
-
-/-- the shortcut `r ≤ R` taken for a centred circle on a polar grid is the Cartesian test -/
-theorem polar_shortcut_centred {ρ R x y : Rat} (hr : 0 ≤ ρ) (hR : 0 ≤ R) (h : sq ρ = sq x + sq y) :
-    (ρ ≤ R ↔ sq x + sq y ≤ sq R) :=
-  polar_shortcut hr hR h
 
 /-! ## a telescope pupil inside the model: Keck -/
 
@@ -298,18 +494,65 @@ theorem keck_in_unit_interval (rings : Nat) (pitch ap segR segA : Rat) (dirs : L
       val (keckShape rings pitch ap segR segA dirs trs obsR spiders hw) p ≤ 1 :=
   keck_mem_unit rings pitch ap segR segA dirs htr obsR spiders hw p
 
-/-! ## the shipped behaviour violates the property -/
+/-- with all transmissions 1 the Keck recipe is a binary aperture: `values_zero_or_one` and
+`supersampled_in_unit_interval` apply to it -/
+theorem keck_binary (rings : Nat) (pitch ap segR segA : Rat) (dirs : List (Rat × Rat))
+    {trs : List Rat} (htr : ∀ t ∈ trs, t = 1) (obsR : Rat) (spiders : List (Rat × Rat)) (hw : Rat) :
+    Binary (keckShape rings pitch ap segR segA dirs trs obsR spiders hw) :=
+  keck_binary_of_unit rings pitch ap segR segA dirs htr obsR spiders hw
 
-/-- D6: `r ≤ R` on polar grids ignores the centre -/
-theorem circular_polar_old_counterexample :
-    ∃ r cx cy p, circlePolarOld r cx cy p ≠ inCircle r cx cy p :=
-  circlePolarOld_counterexample
+/-- the Keck pupil on a polar grid (the central obscuration takes the radius shortcut) equals the
+Keck pupil on the unstructured Cartesian grid with the same points -/
+theorem keck_polar_representation_independent {obsR : Rat} (h : 0 ≤ obsR) (rings : Nat)
+    (pitch ap segR segA : Rat) (dirs : List (Rat × Rat)) (trs : List Rat)
+    (spiders : List (Rat × Rat)) (hw : Rat) (qs : List PPt) (hq : ∀ q ∈ qs, PolarPt q) :
+    evalPolar (keckShape rings pitch ap segR segA dirs trs obsR spiders hw) qs
+      = evalPts (keckShape rings pitch ap segR segA dirs trs obsR spiders hw) (qs.map toCart) := by
+  rw [evalPolar_eq_val _ qs (keck_polarWF h rings pitch ap segR segA dirs trs spiders hw) hq,
+    evalPts_eq_val]
 
-/-- D7: the fallback path with the mask rectangle around the origin -/
-theorem regular_polygon_old_counterexample :
-    ∃ even r a dirs cx cy pts,
-      regpolySlowOld even r a dirs cx cy pts ≠ pts.map (val (.regpoly even r a dirs cx cy)) :=
-  regpolySlowOld_counterexample
+/-! ## a non-hexagonal telescope pupil inside the model: the VLT
+
+`vltShape` = `make_vlt_aperture(…)`: obstructed circular aperture × four finite spiders [× M3 cover];
+`vltSegment i` = the `i`-th quadrant of `return_segments=True`, whose three half-planes are computed
+**in the model** from the spiders' start/end points (`spiderLine`, `vltThird`). -/
+
+/-- the VLT pupil gets the same field on a separated grid and on the unstructured grid with the
+same points (every parameter value; there is no regular polygon in it, so no side condition) -/
+theorem vlt_representation_independent (ro ri : Rat) (sp : List SpiderC)
+    (m3 : Option (Rat × Rat × Rat × Rat)) (xs ys : List Rat) :
+    evalSep (vltShape ro ri sp m3) xs ys = evalPts (vltShape ro ri sp m3) (sepPoints xs ys) :=
+  evalSep_eq_evalPts _ xs ys (vlt_wf ro ri sp m3)
+
+/-- … and on a polar grid (both circles take the radius shortcut) -/
+theorem vlt_polar_representation_independent {ro ri : Rat} (ho : 0 ≤ ro) (hi : 0 ≤ ri)
+    (sp : List SpiderC) (m3 : Option (Rat × Rat × Rat × Rat)) (qs : List PPt)
+    (hq : ∀ q ∈ qs, PolarPt q) :
+    evalPolar (vltShape ro ri sp m3) qs = evalPts (vltShape ro ri sp m3) (qs.map toCart) := by
+  rw [evalPolar_eq_val _ qs (vlt_polarWF ho hi sp m3) hq, evalPts_eq_val]
+
+/-- the VLT recipe is binary when the central obscuration is not larger than the pupil -/
+theorem vlt_binary {ro ri : Rat} (h : rabs ri ≤ rabs ro) (sp : List SpiderC)
+    (m3 : Option (Rat × Rat × Rat × Rat)) : Binary (vltShape ro ri sp m3) :=
+  vlt_binary_of_le h sp m3
+
+/-- every quadrant (segment generator) of the VLT pupil: same field on separated, unstructured
+and polar grids, and binary -/
+theorem vlt_segment_representation_independent {ro ri : Rat} (ho : 0 ≤ ro) (hi : 0 ≤ ri)
+    (hio : ri ≤ ro) (sp : List SpiderC) (m3 : Option (Rat × Rat × Rat × Rat)) {i : Nat}
+    {lines : List ((Rat × Rat) × Rat)} {q : Shape}
+    (h : vltSegment i lines (vltShape ro ri sp m3) m3 = some q) :
+    (∀ xs ys, evalSep q xs ys = evalPts q (sepPoints xs ys)) ∧
+    (∀ qs, (∀ p ∈ qs, PolarPt p) → evalPolar q qs = evalPts q (qs.map toCart)) ∧ Binary q := by
+  obtain ⟨hw, hb, hp⟩ := vltSegment_props h
+  refine ⟨fun xs ys => evalSep_eq_evalPts q xs ys (hw (vlt_wf ro ri sp m3)), ?_, ?_⟩
+  · intro qs hq
+    rw [evalPolar_eq_val q qs (hp (vlt_polarWF ho hi sp m3)) hq, evalPts_eq_val]
+  · apply hb
+    apply vlt_binary_of_le _ sp m3
+    have h1 : rabs ri = ri := by unfold rabs; simp [hi]
+    have h2 : rabs ro = ro := by unfold rabs; simp [ho]
+    rw [h1, h2]; exact hio
 
 /-! ## the hypotheses are satisfiable -/
 
@@ -332,7 +575,40 @@ example : ∀ t ∈ [(1 : Rat), 1/2, 0], 0 ≤ t ∧ t ≤ 1 := by
   simp at ht
   rcases ht with rfl | rfl | rfl <;> norm_num
 
-example : ∃ f, supersampled (.circle 1 0 0) 2 2 [0, 1] [0, 1, 2] = some f := ⟨_, rfl⟩
+example : ∃ f, supersampled (.circle 1 0 0) 2 2 [0, 1] [0, 1, 2] = .ok f :=
+  (supersampled_isOk_iff _ 2 2 [0, 1] [0, 1, 2]).mpr (by simp)
+
+example : supersampled (.circle 1 0 0) 0 2 [0, 1] [0, 1, 2] = .error .zeroDiv :=
+  ((supersampled_error_iff _ 0 2 [0, 1] [0, 1, 2]).2).mpr (by simp)
+
+example : PolarWF (.mul (.sub (.disk 2) (.disk 1)) (.rot (3/5) (4/5) (.compl (.disk (1/2))))) :=
+  ⟨⟨show (0 : Rat) ≤ 2 by norm_num, show (0 : Rat) ≤ 1 by norm_num⟩,
+    show (3/5 : Rat) * (3/5) + (4/5) * (4/5) = 1 by norm_num, show (0 : Rat) ≤ 1/2 by norm_num⟩
+
+example : ∀ q ∈ [((0 : Rat), (1 : Rat), (0 : Rat)), (2, 3/5, -4/5)], PolarPt q := by
+  intro q hq
+  simp at hq
+  rcases hq with rfl | rfl <;> exact ⟨by norm_num, by norm_num⟩
+
+example : ∃ f, supersampledStat .max (.circle 1 0 0) 2 1 [0, 1] [0, 1, 2] = .ok f :=
+  (supersampledStat_isOk_iff .max _ 2 1 [0, 1] [0, 1, 2]).mpr (by simp)
+
+example : ∀ q ∈ [((2 : Rat), (3/5 : Rat), (4/5 + 1/1000 : Rat)), (1/2, 1, 1/1000)],
+    diskAgree (.sub (.disk 1) (.disk (1/4))) q = true := by decide +kernel
+
+example : |(3/5 : Rat) * (3/5) + (4/5 + 1/1000) * (4/5 + 1/1000) - 1| ≤ 1/500 ∧
+    (1/500 : Rat) * sq 2 < |sq 2 - sq 1| := by
+  unfold sq; constructor <;> norm_num [abs_le, abs_of_pos]
+
+example : ∃ fs, supersampledList .min 2 1 [0, 1] [0, 1, 2] [.circle 1 0 0, .disk 2] = .ok fs := by
+  obtain ⟨f, hf⟩ := (supersampledStat_isOk_iff .min (.circle 1 0 0) 2 1 [0, 1] [0, 1, 2]).mpr (by simp)
+  obtain ⟨g, hg⟩ := (supersampledStat_isOk_iff .min (.disk 2) 2 1 [0, 1] [0, 1, 2]).mpr (by simp)
+  exact ⟨[f, g], (supersampledList_ok_iff _ _ _ _ _ (by simp) _).mpr (List.Forall₂.cons hf (List.Forall₂.cons hg List.Forall₂.nil))⟩
+
+example : (vltSegment 3 (vltLines [((-1, -1), (-4, 0)), ((-1, -1), (0, -4)), ((1, 1), (4, 0)), ((1, 1), (0, 4))])
+    (vltShape 4 (1/2) [] none) none).isSome = true := by decide +kernel
+
+example : ∀ t ∈ [(1 : Rat), 1, 1], t = 1 := by simp
 
 example : (regpolySub true 1 (7/8) [(1, 0)] [5, 0, 7] [0]).isSome = true := by decide +kernel
 
